@@ -387,17 +387,32 @@ func c35GenConc(r *vu.RNG) string {
 	return fmt.Sprintf("%s %x %s", kw, capacity, strings.Join(parts, " "))
 }
 
+// c35Broken probes the lock discipline directly: when a method runs while the harness holds the
+// lock, the concurrent cases are not run (unsynchronised map writes make the Go runtime abort the
+// whole process, and the trace with it); the probe cases report the defect.
+func c35Broken() bool {
+	for _, m := range []string{"Get", "Put"} {
+		for _, h := range []string{"x", "r"} {
+			if c35Probe(m, h) != "blocked" {
+				return true
+			}
+		}
+	}
+	return false
+}
+
 func c35Gen(r *vu.RNG, n int, emit func(string)) {
 	mode := os.Getenv("VERIF_MODE")
-	if mode == "stress" { // concurrent histories only (run under -race in the thorough tier)
-		for i := 0; i < n; i++ {
-			emit(c35GenConc(r))
-		}
-		return
-	}
 	for _, m := range []string{"Get", "Put"} {
 		emit("probe " + m + " x")
 		emit("probe " + m + " r")
+	}
+	broken := c35Broken()
+	if mode == "stress" { // concurrent histories only (run under -race in the thorough tier)
+		for i := 0; i < n && !broken; i++ {
+			emit(c35GenConc(r))
+		}
+		return
 	}
 	emit("seq 0")
 	emit("seq 1 g:0 p:0:0 g:0 d p:1:5 d g:0 g:1")
@@ -406,7 +421,7 @@ func c35Gen(r *vu.RNG, n int, emit func(string)) {
 	for i := 0; i < n; i++ {
 		emit(c35GenSeq(r))
 	}
-	for i := 0; i < nconc; i++ {
+	for i := 0; i < nconc && !broken; i++ {
 		emit(c35GenConc(r))
 	}
 }
